@@ -56,7 +56,7 @@ PROPS = {
                         'key table contents (U-db units)', 'that continued builds return clean results (lemma L1)'],
     },
     'C05': {
-        'units': ['engine', 'engine_build', 'engine_cancel', 'serialqueue', 'lanequeue', 'engine_loop', 'procgroup'],
+        'units': ['engine', 'engine_build', 'engine_cancel', 'serialqueue', 'lanequeue', 'engine_loop', 'procgroup', 'engine_canceldel'],
         'design_ref': 'DESIGN.md section 4, C05',
         'claim': 'build() returns the empty value whenever the task loop failed, the build was already cancelled or the database could not be locked; '
                  'the execution queue is released under its mutex on every path, the engine is never left busy, resetForBuild clears the flag under '
@@ -65,12 +65,12 @@ PROPS = {
                  'being scanned is Incomplete, a rule cancelled in progress reads as never built (so the next scan re-runs it), no result is written to '
                  'the database, both mutexes released (partial correctness of the drain loop); the execution queues never drop a job (also after '
                  'cancellation) and answer a process request made after cancellation exactly once with a cancelled result; cancelBuild notifies the cancellation delegates once, sets the flag and asks the current execution queue to cancel its jobs '
-                 'only while executionQueueMutex is held (build() releases the queue under the same mutex); ProcessGroup::signalAll signals every process group of the group once under its mutex - an interrupt is withheld only from processes that cannot be interrupted safely, any other signal (the kill after the grace period) reaches all',
+                 'only while executionQueueMutex is held (build() releases the queue under the same mutex); ProcessGroup::signalAll signals every process group of the group once under its mutex - an interrupt is withheld only from processes that cannot be interrupted safely, any other signal (the kill after the grace period) reaches all; addCancellationDelegate reads the cancelled flag and inserts the delegate while it holds executionQueueMutex (so a delegate registering during cancelBuild is either walked or told at once, exactly once), removeCancellationDelegate erases under the same mutex',
         'not_decided': ['delivery from foreign threads, hangs (termination of the drain loop depends on other threads reporting)',
                         'the BuildSystemFrontend / lane queue path'],
     },
     'C06': {
-        'units': ['engine', 'engine_build', 'engine_cancel', 'engine_pool', 'engine_loop', 'engine_taskapi'],
+        'units': ['engine', 'engine_build', 'engine_cancel', 'engine_pool', 'engine_loop', 'engine_taskapi', 'engine_canceldel'],
         'design_ref': 'DESIGN.md section 4, C06',
         'claim': 'task protocol automaton on the Task stubs (start once, prior value once after start and only for the same rule definition), ready queue '
                  'receives a task exactly when its wait count reaches zero, finished tasks are queued under finishedTaskInfosMutex and the loop is notified '
@@ -121,11 +121,11 @@ PROPS = {
                         'parallel timing', 'the Windows branch of Subprocess.cpp (not compiled here)'],
     },
     'C09': {
-        'units': ['signature', 'engine', 'extcmd', 'extcmd_result', 'sigsplit', 'sigsplit_shell'],
+        'units': ['signature', 'engine', 'extcmd', 'extcmd_result', 'sigsplit', 'sigsplit_shell', 'swiftsig'],
         'design_ref': 'DESIGN.md section 4, C09',
         'claim': 'ShellCommand::getSignature feeds every argument, both halves of every environment entry, every deps path and the three scalar '
                  'settings exactly once (or only the explicit signature when one is given), never hands out the null signature, caches what it '
-                 'returns, and no value reaches combine(bool) through a narrowing conversion; the engine re-runs on signature inequality before '
+                 'returns, and no value reaches combine(bool) through a narrowing conversion; SwiftCompilerShellCommand::getSignature feeds, after the common part, executable, module name, module aliases, module output path, sources, objects, import paths, temps path, other arguments and is-library, each exactly once; the engine re-runs on signature inequality before '
                  'validity and offers a prior value only for the same signature; BOUNDED (not counted, relational): two definitions that differ only in where a list ends (inputs/outputs, arguments/deps paths) feed different sequences into the hash chain',
         'not_decided': ['collision freedom of the 64-bit hash (hash_combine is uninterpreted)', 'list boundaries in the chain: inputs/outputs/args/env/deps are '
                         'chained without delimiters (candidate finding F9, ExternalCommand::getSignature is not under contract)', 'the null-build claim end to end'],
@@ -175,12 +175,12 @@ PROPS = {
                         'recursive directory removal (FileSystem::remove)'],
     },
     'C15': {
-        'units': ['buildkey', 'buildvalue', 'buildvalue_codec', 'bincode', 'fileinfo_codec'],
+        'units': ['buildkey', 'buildvalue', 'buildvalue_codec', 'bincode', 'fileinfo_codec', 'stringlist'],
         'design_ref': 'DESIGN.md section 4, C15',
         'claim': 'BuildKey: kind tag <-> kind maps are inverse on the nine kinds and distinct (spec table checked for distinctness), getKind reads the '
                  'tag byte, and every accessor of the two wire shapes returns exactly the length-delimited name / payload span for arbitrary bytes '
-                 '(keys shorter than 2^32 bytes); BuildValue: a kind\'s signature / output infos / string list are encoded and decoded exactly when its factory takes them; BuildValue::toData and the decoding constructor walk the same item sequence (kind; signature, count + infos in order, string list -- each exactly when the factory of the kind takes that payload), the decoder allocating a block of exactly the count read; BinaryEncoder::write / BinaryDecoder::read of 8/16/32/64-bit integers write and read the little-endian bytes and advance by the width (so decode(encode(x)) = x at item and at byte level); BuildKey(tag, name) builds the tag byte followed by ALL bytes of the name (length from the StringRef, not from a terminator); BinaryCodingTraits<FileChecksum> writes the 32 checksum bytes in order and reads them back in order, each byte as itself (0x00 included)',
-        'not_decided': ['the key constructors (std::string building)', 'StringList encode / decode and FileInfo coding traits (items here)', 'the decoder does not check that it stays inside its data (corrupt stored values)'],
+                 '(keys shorter than 2^32 bytes); BuildValue: a kind\'s signature / output infos / string list are encoded and decoded exactly when its factory takes them; BuildValue::toData and the decoding constructor walk the same item sequence (kind; signature, count + infos in order, string list -- each exactly when the factory of the kind takes that payload), the decoder allocating a block of exactly the count read; BinaryEncoder::write / BinaryDecoder::read of 8/16/32/64-bit integers write and read the little-endian bytes and advance by the width (so decode(encode(x)) = x at item and at byte level); BuildKey(tag, name) builds the tag byte followed by ALL bytes of the name (length from the StringRef, not from a terminator); BinaryCodingTraits<FileChecksum> writes the 32 checksum bytes in order and reads them back in order, each byte as itself (0x00 included); StringList built from one string holds that string followed by its terminator and its encoded size counts the terminator; encode writes the size and then exactly that many bytes',
+        'not_decided': ['the key constructors (std::string building)', 'the array-built StringList constructor and getValues (the one-string constructor and encode are under contract)', 'the decoder does not check that it stays inside its data (corrupt stored values)'],
     },
     'C16': {
         'units': ['lanequeue', 'serialqueue', 'subprocess', 'procgroup'],
@@ -211,7 +211,7 @@ PROPS = {
                  'excepted: "a changed command line re-runs its command") and every output exists with unchanged file information; an input is valid exactly '
                  'when it was recorded as existing, still exists and is unchanged; a select-composite result exactly when successful with an unchanged hash; '
                  'the depfile callback records the unescaped word normalised against the working directory (once, or not at all when normalisation fails); the command task: an input value that is neither an existing file nor a successful command makes the command skip (a missing one is reported once), a usable input never un-skips it and its time stamp is folded into the newest input time, update-if-newer is never switched back on, the prior command hash is taken only from a successful stored result, and a command is brought up to date WITHOUT running only if every output exists and is not older (strict mode: strictly newer) than the newest input; two steps of inputsAvailable: a phony command completes with the current state of its outputs and forces the change through exactly when an output is missing; '
-                 'the update-without-running path is taken exactly when it is still allowed, the command is a generator or its command hash equals the hash of the stored successful result (a changed command line re-runs its command), and canUpdateIfNewerWithResult agrees - then it completes once with the recomputed result and counts one updated command',
+                 'the update-without-running path is taken exactly when it is still allowed, the command is a generator or its command hash equals the hash of the stored successful result (a changed command line re-runs its command), and canUpdateIfNewerWithResult agrees - then it completes once with the recomputed result and counts one updated command; after a successful process, a failure to take in the discovered dependencies counts one failed command and completes once, forced, with the failed-command value (and the dependencies are processed exactly once)',
         'not_decided': ['convergence to the clean-build state, null rebuilds, order-only handling, restat/generator/pool semantics, failure '
                         'propagation (closures over the build context)', 'decoding of the stored value (assumed pure)'],
     },
@@ -225,13 +225,13 @@ PROPS = {
         'not_decided': ['llvm::yaml itself (scanner / parser), the string handling of the loader', 'the other ManifestLoader actions (rule / pool / default declarations); two different paths naming one file (symbolic links) are different files to the loader; recursion between FILE-level bindings is not possible: they are evaluated when bound', 'BinaryDecoder bounds on stored values'],
     },
     'C20': {
-        'units': ['capi', 'capi_cb'],
+        'units': ['capi', 'capi_cb', 'capi_db'],
         'design_ref': 'DESIGN.md section 4, C20',
         'claim': 'the C entry points llb_buildengine_task_needs_input / must_follow / discovered_dependency / task_is_complete / '
                  'build / attach_db call the C++ engine exactly once with the key or value bytes and explicit length (NUL-safe), '
-                 'the same input id, force_change, schema version and recreateUnmatchedVersion == true, and return the engine\'s answer; the callback half: CAPITask::start / provideValue / inputsAvailable and CAPIRule::createTask / isResultValid / updateStatus hand the client its own context, the engine context, the task interface, the input id, the value bytes with their length and the status unchanged, call the client exactly once, and treat a missing is_result_valid / update_status callback as valid / no-op; cycleDetected hands the client one (length, pointer) pair per rule of the cycle, in order, pointing INTO the key of that rule (not into a temporary copy), once, with the client context',
+                 'the same input id, force_change, schema version and recreateUnmatchedVersion == true, and return the engine\'s answer; the callback half: CAPITask::start / provideValue / inputsAvailable and CAPIRule::createTask / isResultValid / updateStatus hand the client its own context, the engine context, the task interface, the input id, the value bytes with their length and the status unchanged, call the client exactly once, and treat a missing is_result_valid / update_status callback as valid / no-op; cycleDetected hands the client one (length, pointer) pair per rule of the cycle, in order, pointing INTO the key of that rule (not into a temporary copy), once, with the client context; the database half: the record mapResult hands the client carries every field of the stored result in the field of that name',
         'not_decided': ['event-by-event equality of whole builds (follows from the forwarders being identities)',
-                        'lookupRule / error of the delegate wrapper and BuildDB-C-API.cpp'],
+                        'lookupRule / error of the delegate wrapper', 'BuildDB-C-API.cpp apart from the record mapResult builds (value, signature, computed_at, built_at, start, end, dependency array and count each land in the field of that name: unit capi_db)'],
     },
 }
 
